@@ -329,6 +329,79 @@ def _cmp(ef, er, names, ids, path):
     return None
 
 
+def extra_type_fault_cases(t, vd):
+    """Type faults whose removed subtree is referenced from outside or contains the only instance
+    of a custom component: the form must equal the one of the document without the subtree
+    (nothing of the subtree may survive: no resolvable id, no <customwidgets> entry)."""
+    import os
+    tmpl = ("import qmluic.QtWidgets\nQWidget {{\n    id: root\n    QLabel {{ id: lab; text: \"l\"; buddy: {ref} }}\n"
+            "    QLineEdit {{ id: outer }}\n{sub}    QLabel {{ text: \"tail\" }}\n}}\n")
+    subs = {
+        "self": "    {T} {{ id: gone; toolTip: \"g\" }}\n",
+        "child": "    {T} {{ id: gone\n        QLineEdit {{ id: inner }}\n    }}\n",
+        "grandchild": "    {T} {{\n        QVBoxLayout {{ QLineEdit {{ id: inner }} QLabel {{ }} }}\n    }}\n",
+    }
+    for bad in ("QNoSuchType", "QVariant"):
+        for sname, sub in subs.items():
+            for ref in ("outer", "gone", "inner"):
+                if ref == "gone" and sname == "grandchild":
+                    continue
+                if ref == "inner" and sname == "self":
+                    continue
+                faulted = tmpl.format(ref=ref, sub=sub.format(T=bad))
+                reference = tmpl.format(ref=ref, sub="")
+                rf = vd.job({"id": 0, "source": faulted, "modes": ["omit"]})["modes"]["omit"]
+                rr = vd.job({"id": 1, "source": reference, "modes": ["omit"]})["modes"]["omit"]
+                t.inc("pairs")
+                t.inc("fault:type-fault-with-outside-reference")
+                t.distinct.add(faulted)
+                case = {"id": f"extra/{bad}/{sname}/{ref}", "source": faulted, "reference_source": reference,
+                        "faults": [[[], "type-fault-with-outside-reference"]]}
+                if rf.get("status") != "built" or rr.get("status") != "built":
+                    t.violation("no-form-although-root-resolves", case)
+                    continue
+                ids = {"root", "lab", "outer"}
+                if canon(uiread.parse(rf["ui"]), ids, True) != canon(uiread.parse(rr["ui"]), ids, True):
+                    t.violation("type-fault:something-of-the-removed-subtree-survived",
+                                dict(case, ui=rf["ui"], reference_ui=rr["ui"]))
+    # custom component instantiated only inside the removed subtree
+    with vc.scratch_dir("c20") as d:
+        with open(os.path.join(d, "Comp.qml"), "w") as f:
+            f.write("import qmluic.QtWidgets\nQFrame { }\n")
+        with open(os.path.join(d, "Other.qml"), "w") as f:
+            f.write("import qmluic.QtWidgets\nQWidget { }\n")
+        for bad in ("QNoSuchType", "QVariant"):
+            for inner in ("Comp { }", "QVBoxLayout { Comp { } Other { } }", "QWidget { Comp { id: c1 } }"):
+                for keep in ("", "    Other { }\n"):
+                    faulted = f"import qmluic.QtWidgets\nQWidget {{\n    {bad} {{ {inner} }}\n{keep}    QLabel {{ }}\n}}\n"
+                    reference = f"import qmluic.QtWidgets\nQWidget {{\n{keep}    QLabel {{ }}\n}}\n"
+                    res = []
+                    for name, text in (("Faulted.qml", faulted), ("Reference.qml", reference)):
+                        with open(os.path.join(d, name), "w") as f:
+                            f.write(text)
+                    for name in ("Faulted.qml", "Reference.qml"):
+                        r = vd.job({"id": name, "path": os.path.join(d, name), "modes": ["omit"],
+                                    "type_name": "Doc"})
+                        res.append(r["modes"]["omit"])
+                    for name in ("Faulted.qml", "Reference.qml"):
+                        os.remove(os.path.join(d, name))
+                    t.inc("pairs")
+                    t.inc("fault:type-fault-over-custom-component")
+                    t.distinct.add(faulted)
+                    case = {"id": f"extra/component/{bad}", "source": faulted, "reference_source": reference,
+                            "faults": [[[], "type-fault-over-custom-component"]]}
+                    if res[0].get("status") != "built" or res[1].get("status") != "built":
+                        t.violation("no-form-although-root-resolves", case)
+                        continue
+                    a, b = uiread.parse(res[0]["ui"]), uiread.parse(res[1]["ui"])
+                    # the two files have different type names: compare everything but <class>
+                    for x in (a, b):
+                        x.children = [c for c in x.children if c.tag != "class"]
+                    if canon(a, set(), True) != canon(b, set(), True):
+                        t.violation("type-fault:something-of-the-removed-subtree-survived",
+                                    dict(case, ui=res[0]["ui"], reference_ui=res[1]["ui"]))
+
+
 def shard_work(shard, nshards, payload):
     vd = vc.worker_vdrive()
     t = vc.Tally()
@@ -339,6 +412,8 @@ def shard_work(shard, nshards, payload):
         if k % 2500 == 0:
             t.sample({"id": cid, "faults": [[list(p), f] for p, f in plants],
                       "source": qml.render(root, oneline=True)[:300]})
+    if shard == 0:
+        extra_type_fault_cases(t, vd)
     return t
 
 
